@@ -362,7 +362,7 @@ Judge(q) ==
   IN
   IF q.stage # "done"
   THEN LET vd == IF q.pg THEN "refused_pg" ELSE "refused_other" IN
-       [verdict |-> vd, ok |-> vd \in allowed, failing |-> {}, dom |-> dom, vdom |-> vdom, kdom |-> kdom, allowed |-> allowed,
+       [verdict |-> vd, ok |-> vd \in allowed, failing |-> {}, dom |-> dom, vdom |-> vdom, kdom |-> kdom, ldom |-> LayoutDom(q.fmt, q.layout), allowed |-> allowed,
         focus |-> <<vd, q.exc>>, impl |-> impl, id_equal |-> TRUE, id_obliged |-> FALSE,
         agrees |-> Agrees(impl, <<vd, q.exc>>), by_value |-> Agrees(implV, <<vd, q.exc>>), by_key |-> Agrees(implK, <<vd, q.exc>>)]
   ELSE LET f == Failing(q.before, q.after, exact, q.focus, q.docs)
@@ -371,7 +371,7 @@ Judge(q) ==
            f2 == IF f = {} /\ ob /\ ~ideq THEN {"identifier"} ELSE f
            vd == IF f2 = {} THEN "preserved" ELSE "changed"
            fl == FocusLabel(q.before, q.after, q.focus) IN
-       [verdict |-> vd, ok |-> vd \in allowed, failing |-> f2, dom |-> dom, vdom |-> vdom, kdom |-> kdom, allowed |-> allowed,
+       [verdict |-> vd, ok |-> vd \in allowed, failing |-> f2, dom |-> dom, vdom |-> vdom, kdom |-> kdom, ldom |-> LayoutDom(q.fmt, q.layout), allowed |-> allowed,
         focus |-> fl, impl |-> impl, id_equal |-> ideq, id_obliged |-> ob,
         agrees |-> Agrees(impl, fl), by_value |-> Agrees(implV, fl), by_key |-> Agrees(implK, fl)]
 
